@@ -24,6 +24,41 @@ use crate::{
     },
 };
 
+/// Wrap every non-empty array and record of a freshly deserialized piece of data in a
+/// [Term::Closurize] node.
+///
+/// Deserializers build evaluated arrays and records directly, but the rest of the evaluator
+/// assumes that the elements of an evaluated container are either constants or closures (merging,
+/// in particular: see [crate::eval::fixpoint::rec_env]). As for containers coming from the AST
+/// conversion, the elements must thus be closurized the first time the container is evaluated.
+pub fn closurize_data(value: NickelValue) -> NickelValue {
+    use crate::{
+        eval::value::Container,
+        traverse::{Traverse, TraverseOrder},
+    };
+
+    value
+        .traverse::<_, std::convert::Infallible>(
+            &mut |value: NickelValue| {
+                let is_container = matches!(
+                    value.content_ref(),
+                    ValueContentRef::Array(Container::Alloc(_))
+                        | ValueContentRef::Record(Container::Alloc(_))
+                );
+
+                Ok(if is_container {
+                    let pos_idx = value.pos_idx();
+                    NickelValue::term(Term::Closurize(value), pos_idx)
+                } else {
+                    value
+                })
+            },
+            TraverseOrder::BottomUp,
+        )
+        // unwrap(): the traversal is infallible
+        .unwrap()
+}
+
 /// Structures which can be packed together with their environment as a closure.
 ///
 /// The typical implementer is [NickelValue], but structures containing terms can also be
